@@ -346,6 +346,16 @@ example : ∃ i rep rc, (recvBundle { nodeId := .dtn [1], rxRoutes := [] } {} 5
         blocks := [], bcb := .fail 13 }).2 = [.report i rep rc]
     ∧ rep.delivered = .no ∧ rep.deleted = .yes none ∧ rep.reason = 13 := ⟨_, _, _, rfl, by decide, by decide, by decide⟩
 
+/-- **A failed forward is reported once, and the next report is about the next bundle.** After
+    any idle `_do_fwd` on a queue `c0 :: c1 :: q` (successful or not), every report the next
+    `_do_fwd` schedules names `c1` as its subject: the earlier bundle is not reported again. -/
+theorem C19_next_report_about_next_bundle (cfg : Cfg) (st : St) (now now' : Nat) (sp sp' : SendParams)
+    (c0 c1 : Ctr) (q : List Ctr) (hq : st.fwdQ = c0 :: c1 :: q) :
+    ∀ i rep r, Effect.report i rep r ∈ (doFwd cfg (doFwd cfg st now sp).1 now' sp').2 →
+      rep.subjSrc = c1.primary.src ∧ rep.subjTs = c1.primary.ts ∧ r.primary.dest = c1.primary.rpt := by
+  have hq1 : (doFwd cfg st now sp).1.fwdQ = c1 :: q := by rw [doFwd_fwdQ, hq]; rfl
+  exact (C19_forward_report_subject cfg _ now' sp' c1 q hq1).1
+
 end C19
 end Props
 end DtnVerif
